@@ -6,7 +6,8 @@ remainder is smaller than the divisor, has the dividend's sign and leaves a mult
 Trace validation (Trace_Expr): seeded random operand pairs of 1-34 digits, exponents +-30, chains of up to 4 operators, random
 float64 / int64 data; sums, differences and products are computed by the specification, quotients and remainders are checked
 by multiplication (DIsQuo; a = w*b + r with a logged integer witness w); the float64 handed back must be the nearest one in
-the stated domain and within 4 ulp otherwise (exact integer comparison on mantissa * 2^E)."""
+the stated domain and within 4 ulp otherwise (exact integer comparison on mantissa * 2^E).
+Trace_Nodes: random arithmetic programs recorded through the resolve hook, every node validated from its children's observed values."""
 import json
 from checks.evalcheck import run_family
 
@@ -29,6 +30,10 @@ def run(ctx):
     ctx.selftest_binding("arith-random", "trace/Trace_Expr.tla", "trace/Trace_Expr.cfg", tr, "expr", corrupt)
     tr2 = ctx.record("arith-data", "expr", ["-mode", "data", "-n", 8000 if th else 600])
     ctx.validate("arith-data-validate", "trace/Trace_Expr.tla", "trace/Trace_Expr.cfg", tr2, "expr", shards=8 if th else 2, timeout=3400)
+    # random arithmetic programs (literals of up to 34 digits, exponents to +-40, nested + - * / %, numeric builtins, locals),
+    # every node judged on its own from the values its children were observed to have: intermediate results, not only roots
+    nd = ctx.record("nodes-arith", "nodes", ["-n", 8000 if th else 500, "-profile", "arith", "-seed", ctx.seed * 100 + 54])
+    ctx.validate("nodes-arith-validate", "trace/Trace_Nodes.tla", "trace/Trace_Nodes.cfg", nd, "nodes", shards=16 if th else 4, timeout=3400, cut="start")
     return ctx.finish(
         rule="all pairs of the decimal grid x {+,-,*}, short divisors x {/,%}, chains, data-entry comparisons (replayed); seeded random "
              "operand pairs / chains / float64 and int64 data recorded from the real evaluator and validated event by event; "
